@@ -149,6 +149,19 @@ def install(eng):
         if re.search(r'<impl P3>::new$|P3::new$|OPoint::<.*>::new$', g): return one(st, Mat(3, 1, a))
         if re.search(r'^<P3 as std::ops::Deref(Mut)?>::deref(_mut)?$', g): return one(st, a[0])
         if re.search(r'<impl P3>::origin$', g): return one(st, zero3())
+        if re.search(r'na::construction::<impl M6>::zeros$|<impl na::Matrix<f64, na::Const<6>, na::Const<6>.*>::zeros$', g): return one(st, Mat(6, 6, [fc(0)] * 36))
+        if re.search(r'na::construction::<impl V6>::new$|<impl na::Matrix<f64, na::Const<6>, na::Const<1>.*>::new$', g): return one(st, Mat(6, 1, a))
+        if re.search(r'na::matrix_view::<impl .*>::fixed_view_mut$', g):
+            dims = re.search(r'fixed_view_mut::<(\d+), (\d+)>', f); return one(st, Opaque('view', data=(a[0], int(a[1]), int(a[2]), int(dims.group(1)), int(dims.group(2)))))
+        if re.search(r'na::Matrix::<.*>::copy_from', g) or g.endswith('::copy_from'):
+            view = D(st, a[0]) if isinstance(a[0], RefV) else a[0]; src = D(st, a[1])
+            if isinstance(view, Opaque) and view.kind == 'view':
+                ref, r0, c0, nr, nc = view.data; Mx = D(st, ref); dd = list(Mx.d)
+                for i in range(nr):
+                    for j in range(nc): dd[(r0 + i) * Mx.c + (c0 + j)] = src.at(i, j)
+                e.write_ref(st, ref, Mat(Mx.r, Mx.c, dd, Mx.tag)); return one(st, UNIT)
+        if re.search(r'^<&?M6 as std::ops::Mul<&?V6>>::mul$', g): return one(st, Mat(6, 1, mmul(D(st, a[0]), D(st, a[1])).d))
+        if re.search(r'^<&?M6 as std::ops::Mul(<&?M6>)?>::mul$', g): return one(st, mmul(D(st, a[0]), D(st, a[1])))
         # --- arithmetic ---
         if re.search(r'^<&?(M3|Rot3|UQ) as std::ops::Mul(<&?(M3|Rot3|UQ)>)?>::mul$', g): return one(st, mmul(D(st, a[0]), D(st, a[1])))
         if re.search(r'^<&?(M3|Rot3|UQ) as std::ops::Mul<&?(V3|UV3)>>::mul$', g): return one(st, Mat(3, 1, mmul(D(st, a[0]), D(st, a[1])).d))
